@@ -40,7 +40,7 @@ OUT_FILE = os.path.join(C.COQ, "gen", "GenCode.v")
 
 # (module path relative to src/thefittest, function names in translation order)
 TARGETS = [
-    ("utils/__init__.py", ["find_end_subtree_from_i", "find_id_args_from_i", "binary_search_interval",
+    ("utils/__init__.py", ["find_end_subtree_from_i", "find_id_args_from_i", "get_levels_tree_from_i", "binary_search_interval",
                            "check_for_value", "argsort_k", "find_pbest_id"]),
     ("utils/random.py", ["sattolo_shuffle", "random_weighted_sample", "random_sample", "flip_coin", "uniform", "randint"]),
     ("utils/selections.py", ["proportional_selection", "rank_selection", "tournament_selection"]),
@@ -202,6 +202,10 @@ def assigned_vars(stmts):
                     tgt(n.target)
             elif isinstance(n, ast.For):
                 tgt(n.target)
+            elif isinstance(n, ast.Call) and isinstance(n.func, ast.Attribute) and n.func.attr in ("append", "pop") \
+                    and isinstance(n.func.value, ast.Name):
+                if n.func.value.id not in out:          # list.append / list.pop re-bind the list in the translation
+                    out.append(n.func.value.id)
     return out
 
 
@@ -305,6 +309,10 @@ class Translator:
             if isinstance(e.value, float):
                 return qlit(e.value), Q
             raise Untranslatable(e, "constant " + repr(e.value))
+        if isinstance(e, ast.List):
+            # a Python list of ints (used as a stack by the tree helpers)
+            cs = [self.expr(fn, sc, x, pre, Z)[0] for x in e.elts]
+            return "([" + "; ".join(cs) + "] : list Z)", L(Z)
         if isinstance(e, ast.Name):
             if e.id in sc.poisoned:
                 raise Untranslatable(e, f"'{e.id}' is read after the loop/branch that defines it (value not tracked: possibly uninitialised)")
@@ -541,6 +549,12 @@ class Translator:
                 raise Untranslatable(e, "arange dtype")
             n, _ = self.expr(fn, sc, kw["stop"], pre, Z)
             return f"(arange {n})", L(Z)
+        if name == "np.array" and len(e.args) == 1:
+            c, t = self._expr(fn, sc, e.args[0], pre)
+            dt = self._dtype(next((k.value for k in e.keywords if k.arg == "dtype"), None))
+            if t == L(Z) and dt == Z:
+                return c, t
+            raise Untranslatable(e, "np.array of " + str(t))
         if name == "np.cumsum" and len(e.args) == 1:
             c, _ = self.expr(fn, sc, e.args[0], pre, L(Q))
             return f"(cumsum {c})", L(Q)
@@ -624,7 +638,7 @@ class Translator:
                 return True
             if isinstance(e.func, ast.Name) and e.func.id in self.funcs:
                 return self.funcs[e.func.id]["returns_fresh"]
-        if isinstance(e, ast.BinOp):
+        if isinstance(e, (ast.BinOp, ast.List)):
             return True
         return False
 
@@ -670,6 +684,50 @@ class Translator:
             new = ast.Assign(targets=[s.target], value=ast.BinOp(left=self._as_load(s.target), op=s.op, right=s.value), lineno=s.lineno)
             ast.fix_missing_locations(new)
             return self.block(fn, sc, [new] + rest, fin, loop)
+        if isinstance(s, ast.Expr) and isinstance(s.value, ast.Call) and isinstance(s.value.func, ast.Attribute) \
+                and isinstance(s.value.func.value, ast.Name) and s.value.func.attr in ("pop", "append"):
+            x = s.value.func.value.id
+            if x not in sc.fresh or sc.env.get(x) != L(Z):
+                raise Untranslatable(s, f"{s.value.func.attr} on '{x}', which is not a list this function created")
+            sc = sc.copy()
+            if s.value.func.attr == "pop":
+                if s.value.args:
+                    raise Untranslatable(s, "pop with an argument")
+                return self.let(x, f"removelast {cname(x)}", self.block(fn, sc, rest, fin, loop))
+            pre = []
+            v, _ = self.expr(fn, sc, s.value.args[0], pre, Z)
+            return self.wrap_pre(pre, self.let(x, f"({cname(x)} ++ [{v}])", self.block(fn, sc, rest, fin, loop)))
+        if isinstance(s, (ast.Assign, ast.AnnAssign)) and s.value is not None:
+            # v = ... x.pop() ... : the popped element is read first, then the list shrinks
+            pops = [n for n in ast.walk(s.value) if isinstance(n, ast.Call) and isinstance(n.func, ast.Attribute) and n.func.attr == "pop"
+                    and isinstance(n.func.value, ast.Name) and not n.args]
+            if pops:
+                if len(pops) != 1:
+                    raise Untranslatable(s, "more than one pop in an expression")
+                x = pops[0].func.value.id
+                if x not in sc.fresh or sc.env.get(x) != L(Z):
+                    raise Untranslatable(s, f"pop on '{x}', which is not a list this function created")
+                tmp = fn.fresh_tmp("p")
+                sc = sc.copy()
+                sc.env[tmp] = Z
+
+                class Repl(ast.NodeTransformer):
+                    def visit_Call(self_, n):
+                        return ast.copy_location(ast.Name(id=tmp, ctx=ast.Load()), n) if n is pops[0] else self_.generic_visit(n)
+                import copy as _copy
+                s2 = _copy.deepcopy(s)
+                # locate the same node in the copy by position
+                target_dump = ast.dump(pops[0])
+
+                class Repl2(ast.NodeTransformer):
+                    def visit_Call(self_, n):
+                        return ast.copy_location(ast.Name(id=tmp, ctx=ast.Load()), n) if ast.dump(n) == target_dump else self_.generic_visit(n)
+                s2 = ast.fix_missing_locations(Repl2().visit(s2))
+                body = self.block(fn, sc, [s2] + rest, fin, loop)
+                # the shrink happens before the rest of the statement is evaluated only in its effect on x: x is not read elsewhere in the value
+                if any(isinstance(n, ast.Name) and n.id == x for n in ast.walk(s2.value)):
+                    raise Untranslatable(s, "the popped list is also read in the same expression")
+                return f"let {tmp} := last {cname(x)} 0 in\nlet {cname(x)} := removelast {cname(x)} in\n{body}"
         if isinstance(s, (ast.Assign, ast.AnnAssign)):
             targets = s.targets if isinstance(s, ast.Assign) else [s.target]
             if len(targets) != 1:
@@ -704,8 +762,8 @@ class Translator:
         sc = sc.copy()
         pre = []
         if isinstance(target, ast.Name):
-            if isinstance(value, (ast.List, ast.Tuple)):
-                raise Untranslatable(s, "list / tuple value")
+            if isinstance(value, ast.Tuple):
+                raise Untranslatable(s, "tuple value")
             c, t = self._expr(fn, sc, value, pre)
             if t == B and isinstance(value, ast.Compare) and c.startswith("(eqmaskZ"):
                 t = L(B)
@@ -906,10 +964,14 @@ class Translator:
             else:
                 raise Untranslatable(s, "range form")
         else:
-            raise Untranslatable(s, "iteration over " + ast.unparse(it)[:40])
+            sub = []
+            lc, lt = self._expr(fn, sc, it, sub)
+            if sub or lt != L(Z):
+                raise Untranslatable(s, "iteration over " + ast.unparse(it)[:40])
+            kind, lo, hi = "list", lc, ""
         state, local = self.loop_state(sc, s.body, (var,))
         brk = has_break(s.body)
-        if brk and kind != "up":
+        if brk and kind == "down":
             raise Untranslatable(s, "break in a downward loop")
 
         def attempt(mon):
@@ -944,8 +1006,10 @@ class Translator:
             mon = True
         if brk and mon:
             raise Untranslatable(s, "break in a loop with effects")
+        if kind == "list" and not brk and not mon:
+            body = f"({body}, false)"
         comb = {("up", False, False): "for_range_p", ("up", True, False): "for_brk_p", ("up", False, True): "for_range",
-                ("down", False, True): "for_down"}.get((kind, brk, mon))
+                ("down", False, True): "for_down", ("list", True, False): "for_list_brk_p", ("list", False, False): "for_list_brk_p"}.get((kind, brk, mon))
         if comb is None:
             raise Untranslatable(s, "loop kind")
         nsc = sc.copy()
@@ -954,7 +1018,7 @@ class Translator:
             nsc.env.setdefault(v, Z)
         # arrays stored into inside the loop stay fresh (stores are only accepted on fresh arrays)
         after = self.block(fn, nsc, rest, fin, loop)
-        call = f"{comb} {lo} {hi} {self.tup(state)} (fun {cname(var)} {self.pat(state)} =>\n{body})"
+        call = f"{comb} {lo} {hi if kind != 'list' else 'tt'} {self.tup(state)} (fun {cname(var)} {self.pat(state)} =>\n{body})"
         if mon:
             return self.wrap_pre(pre, f"bind ({call}) (fun {self.pat(state)} =>\n{after})")
         return self.wrap_pre(pre, f"let {self.pat(state)} := {call} in\n{after}")
